@@ -39,6 +39,7 @@ type Config struct {
 	MapOrderRev bool
 	NoMerge     bool
 	MergeFuncs  map[string]bool
+	StopAfterViolation bool // end a path at its first violated assertion (expensive NRA harnesses)
 	OneShotAll     bool // every query goes to fresh non-incremental solver processes
 	OneShotAsserts bool // decide assertions with fresh non-incremental solver processes (z3 and cvc5 side by side)
 	MonotoneRounding bool // rerr mode: add p<=q => fl(p)<=fl(q) for all pairs of rounded operations
